@@ -19,6 +19,15 @@ def showExcept {α} (f : α → String) : Except PyErr α → String
 
 def showRat (q : Rat) : String := s!"{q.num}/{q.den}"
 
+/-- Floats cross the protocol as their IEEE-754 bit patterns (decimal UInt64), never as text. -/
+def float? (s : String) : Option Float := s.toNat?.map (fun n => Float.ofBits n.toUInt64)
+
+def floats? (l : List String) : Option (List Float) := l.mapM float?
+
+def showFloat (x : Float) : String := toString x.toBits.toNat
+
+def showFloats (l : List Float) : String := " ".intercalate (l.map showFloat)
+
 /-- Every answer line carries the tag `R ` so that compiler noise on stdout can be filtered. -/
 partial def loop (step : List String → String) : IO Unit := do
   let stdin ← IO.getStdin
